@@ -49,6 +49,8 @@ type c07Pkg struct{ path, name string }
 var c07Universe = []c07Pkg{
 	{"fmt", "fmt"}, {"os", "os"}, {"a/b/fmt", "fmt"}, {"x.com/y/fmt", "fmt"}, {"log", "log"}, {"x.com/z/log", "log"},
 	{"gopkg.in/yaml.v2", "yaml"}, {"strings", "strings"}, {"A/pkg", "pkg"},
+	// distinct paths that differ only in letter case (and share the package name)
+	{"x.com/Y/fmt", "fmt"}, {"github.com/Sirupsen/logrus", "logrus"}, {"github.com/sirupsen/logrus", "logrus"},
 }
 
 type c07Spec struct {
